@@ -128,9 +128,16 @@ func CutReachFrom(p *Prog, fn *ssa.Function, start *ssa.BasicBlock, g Guard, avo
 					allowed[0] = false
 				}
 			}
-			if s, isCut := MatchCond(g, ifi.Cond, n.env); isCut {
+			s, isCut := MatchCond(g, ifi.Cond, n.env)
+			via2 := ""
+			if !isCut {
+				if s2, ok, hname := summaryMatch(p, g, ifi.Cond, n.env); ok {
+					s, isCut, via2 = s2, true, " (established inside "+hname+")"
+				}
+			}
+			if isCut {
 				allowed[s] = false
-				key := blockPos(p, b) + "/" + condText(ifi)
+				key := blockPos(p, b) + "/" + condText(ifi) + via2
 				if !instSeen[key] {
 					instSeen[key] = true
 					res.Instances = append(res.Instances, key)
@@ -499,7 +506,14 @@ func ValueErrKind(v ssa.Value, at *ssa.BasicBlock) ErrKind {
 	switch x := v0.(type) {
 	case *ssa.MakeInterface:
 		return ErrNonNil
+	case *ssa.Extract:
+		if c, ok := x.Tuple.(*ssa.Call); ok && helperAlwaysErrors(c, x.Index) {
+			return ErrNonNil
+		}
 	case *ssa.Call:
+		if helperAlwaysErrors(x, 0) {
+			return ErrNonNil
+		}
 		switch CalleeName(x.Common()) {
 		case "fmt.Errorf", "errors.New":
 			return ErrNonNil
@@ -640,4 +654,171 @@ func ReturnOperand(r *ssa.Return, i int) ssa.Value {
 		return last
 	}
 	return v
+}
+
+// summaryMatch implements guard summaries: when a branch tests the error (or
+// boolean) result of a call to a module-internal helper, the fact g holds on
+// the helper's success edge if, inside the helper, every success return is cut
+// by g - evaluated with the helper's parameters standing for the call's
+// arguments. Depth-bounded.
+func summaryMatch(p *Prog, g Guard, cond ssa.Value, env map[*ssa.Phi]ssa.Value) (succ int, ok bool, helper string) {
+	if summaryDepth >= MaxSummaryDepth {
+		return 0, false, ""
+	}
+	flip := false
+	for i := 0; i < 6; i++ {
+		switch x := cond.(type) {
+		case *ssa.Phi:
+			if v, has := env[x]; has && v != cond {
+				cond = v
+				continue
+			}
+		case *ssa.UnOp:
+			if x.Op == token.NOT {
+				flip = !flip
+				cond = x.X
+				continue
+			}
+		}
+		break
+	}
+	fin := func(s int) int {
+		if flip {
+			return 1 - s
+		}
+		return s
+	}
+	switch c := cond.(type) {
+	case *ssa.BinOp:
+		if c.Op != token.NEQ && c.Op != token.EQL {
+			return 0, false, ""
+		}
+		var ev ssa.Value
+		switch {
+		case IsNilConst(c.Y):
+			ev = c.X
+		case IsNilConst(c.X):
+			ev = c.Y
+		default:
+			return 0, false, ""
+		}
+		srcs := errSources(ev)
+		if len(srcs) != 1 {
+			return 0, false, ""
+		}
+		call := srcs[0]
+		h := ModuleCallee(call.Common())
+		if h == nil {
+			return 0, false, ""
+		}
+		idx := ErrorResultIndex(h.Signature)
+		holds := helperEstablishes(p, g, call, h, func(r *ssa.Return) bool {
+			return idx >= 0 && ReturnErrKind(r, idx) != ErrNonNil
+		})
+		if !holds {
+			return 0, false, ""
+		}
+		if c.Op == token.NEQ {
+			return fin(1), true, FuncName(h)
+		}
+		return fin(0), true, FuncName(h)
+	case *ssa.Call:
+		h := ModuleCallee(c.Common())
+		if h == nil || h.Signature.Results().Len() != 1 {
+			return 0, false, ""
+		}
+		for _, want := range []bool{true, false} {
+			want := want
+			n := 0
+			holds := helperEstablishes(p, g, c, h, func(r *ssa.Return) bool {
+				b, isB := ConstBool(ReturnOperand(r, 0))
+				if !isB {
+					// a non-constant boolean result may be either value
+					n = -1 << 20
+					return true
+				}
+				if b == want {
+					n++
+				}
+				return b == want
+			})
+			if holds && n > 0 {
+				if want {
+					return fin(0), true, FuncName(h)
+				}
+				return fin(1), true, FuncName(h)
+			}
+		}
+	}
+	return 0, false, ""
+}
+
+// helperEstablishes: inside h (parameters bound to the call's arguments) every
+// return selected by sel is cut by g, and g has at least one instance there.
+func helperEstablishes(p *Prog, g Guard, call *ssa.Call, h *ssa.Function, sel func(*ssa.Return) bool) bool {
+	holds := false
+	WithSubst(FrameSubst(call.Common(), h), func() {
+		summaryDepth++
+		defer func() { summaryDepth-- }()
+		var sinks []*ssa.BasicBlock
+		tail := 0
+		idx := ErrorResultIndex(h.Signature)
+		for _, r := range Returns(h) {
+			if !sel(r) {
+				continue
+			}
+			// "return f(...)": the helper succeeds exactly when f does, so the
+			// return is as good as the success edge of a test of f's error
+			if idx >= 0 && idx < len(r.Results) {
+				ev := ReturnOperand(r, idx)
+				if len(errSources(ev)) == 1 {
+					synth := &ssa.BinOp{Op: token.NEQ, X: ev, Y: ssa.NewConst(nil, ev.Type())}
+					if _, ok := MatchCond(g, synth, nil); ok {
+						tail++
+						continue
+					}
+					if _, ok, _ := summaryMatch(p, g, synth, nil); ok {
+						tail++
+						continue
+					}
+				}
+			}
+			sinks = append(sinks, r.Block())
+		}
+		if len(sinks) == 0 {
+			holds = tail > 0
+			return
+		}
+		res := CutReach(p, h, g, sinks...)
+		holds = !res.Reachable && (len(res.Instances) > 0 || tail > 0)
+	})
+	return holds
+}
+
+var errDepth int
+
+// helperAlwaysErrors: result idx of a call to a module-internal helper is an
+// error that is non-nil on every return of the helper (e.g. a log-and-wrap
+// helper).
+func helperAlwaysErrors(c *ssa.Call, idx int) bool {
+	h := ModuleCallee(c.Common())
+	if h == nil || errDepth >= MaxSummaryDepth {
+		return false
+	}
+	res := h.Signature.Results()
+	if idx >= res.Len() || !IsErrorType(res.At(idx).Type()) {
+		return false
+	}
+	errDepth++
+	defer func() { errDepth-- }()
+	rets := Returns(h)
+	if len(rets) == 0 {
+		return false
+	}
+	for _, r := range rets {
+		if ReturnErrKind(r, idx) != ErrNonNil {
+			return false
+		}
+	}
+	return true
 }
